@@ -56,6 +56,17 @@ SeqSet(s) == { s[k] : k \in 1..Len(s) }
 RECURSIVE Concat(_)
 Concat(ss) == IF ss = <<>> THEN <<>> ELSE Head(ss) \o Concat(Tail(ss))
 
+\* ------------------------------------------------------------------ demonstration structure
+\* chain 1: G1 C2 (water 3) G5 ; chain 2: U1.  C2 is not bonded to G5: two numbers are missing.
+\* Used by the design model and by the exhaustive entry-list family of the generator.
+DemoShape ==
+  << [chain |-> 1, number |-> 1, ic |-> 0, nuc |-> TRUE,  letter |-> "G", conn |-> TRUE],
+     [chain |-> 1, number |-> 2, ic |-> 0, nuc |-> TRUE,  letter |-> "C", conn |-> FALSE],
+     [chain |-> 1, number |-> 3, ic |-> 0, nuc |-> FALSE, letter |-> "X", conn |-> FALSE],
+     [chain |-> 1, number |-> 5, ic |-> 0, nuc |-> TRUE,  letter |-> "G", conn |-> FALSE],
+     [chain |-> 2, number |-> 1, ic |-> 0, nuc |-> TRUE,  letter |-> "U", conn |-> FALSE] >>
+DemoNuc == { k \in 1..Len(DemoShape) : DemoShape[k].nuc }
+
 \* ------------------------------------------------------------------ numbering
 \* number of "?" placeholders between consecutive nucleotides p, k (file indices)
 PH(res, gaps, p, k) ==
